@@ -220,6 +220,25 @@ func (env *SpecEnv) btreeSpec(name string, n *ast.CallExpr) (SV, bool) {
 			return v, true
 		}
 		return intSV(intLit(0)), true
+	case "lastrecv":
+		nm := n.Args[0].(*ast.Ident).Name
+		if v, ok := st.ghost["$lastrecv."+nm]; ok {
+			return v, true
+		}
+		panic(fmt.Sprintf("lastrecv(%s): no call of that method before this point", nm))
+	case "lastres":
+		nm := n.Args[0].(*ast.Ident).Name
+		if v, ok := st.ghost["$lastres."+nm]; ok {
+			return v, true
+		}
+		panic(fmt.Sprintf("lastres(%s): no call of that method before this point", nm))
+	case "lastarg":
+		nm := n.Args[0].(*ast.Ident).Name
+		idx := n.Args[1].(*ast.BasicLit).Value
+		if v, ok := st.ghost["$lastarg."+nm+"."+idx]; ok {
+			return v, true
+		}
+		panic(fmt.Sprintf("lastarg(%s, %s): no call of that method before this point", nm, idx))
 	case "callsAtLastMeta":
 		nm := n.Args[0].(*ast.Ident).Name
 		if v, ok := st.ghost["$callsAtMeta."+nm]; ok {
@@ -245,6 +264,13 @@ func (env *SpecEnv) btreeSpec(name string, n *ast.CallExpr) (SV, bool) {
 		return intSV(env.eval(n.Args[0]).(*IfaceV).Ref), true
 	case "itag":
 		return intSV(env.eval(n.Args[0]).(*IfaceV).Tag), true
+	case "asptr":
+		// asptr(x, T): the pointer held by the interface value x, viewed as *T (meaningful when itag(x) == typeidptr(T))
+		t, err := resolveTypeExpr(env.pkg, n.Args[1])
+		if err != nil {
+			panic("spec: " + err.Error())
+		}
+		return &PtrV{Ty: types.NewPointer(t), Addr: env.eval(n.Args[0]).(*IfaceV).Ref}, true
 	case "deref":
 		return env.deref(env.eval(n.Args[0])), true
 	case "tlen":
